@@ -1,5 +1,5 @@
 import time
-from threading import Thread, current_thread
+from threading import Lock, Thread, current_thread
 from typing import Any, Callable, Optional, Set
 
 from nextline.utils.thread_exception import ExcThread
@@ -31,6 +31,7 @@ class ThreadDoneCallback:
         self._interval = interval
 
         self._active: Set[Thread] = set()
+        self._lock = Lock()  # to be held while reading or updating self._active
         self._closed = False
 
         self._t = ExcThread(target=self._monitor, daemon=True)
@@ -44,7 +45,8 @@ class ThreadDoneCallback:
         """
         if thread is None:
             thread = current_thread()
-        self._active.add(thread)
+        with self._lock:
+            self._active.add(thread)
         return thread
 
     def close(self) -> None:
@@ -66,14 +68,18 @@ class ThreadDoneCallback:
     def _monitor(self) -> None:
         exc = []
         while True:
-            if done := {t for t in self._active if not t.is_alive()}:
+            with self._lock:
+                done = {t for t in self._active if not t.is_alive()}
+            if done:
                 if self._done:
                     for d in done:
                         try:
                             self._done(d)
                         except BaseException as e:
                             exc.append(e)
-                self._active = self._active - done
+                with self._lock:
+                    # Not to lose threads registered in the meantime
+                    self._active = self._active - done
             time.sleep(self._interval)
             if self._active:
                 continue
